@@ -363,11 +363,14 @@ func (pe *programExecutor) executeUpdateSector(instr *rhp3.InstrUpdateSector, _ 
 	if relOffset+length > rhp2.SectorSize {
 		return nil, nil, fmt.Errorf("update offset %v length %v is out of bounds", relOffset, length)
 	}
-	copy(sector[relOffset:], patch)
+	// patch a copy: the buffer returned by ReadSector is shared with the sector
+	// cache and still belongs to the old root
+	updated := *sector
+	copy(updated[relOffset:], patch)
 
 	// store the new sector
-	newRoot := rhp2.SectorRoot((*[rhp2.SectorSize]byte)(sector))
-	if err := pe.sectors.Write(newRoot, sector); err != nil {
+	newRoot := rhp2.SectorRoot(&updated)
+	if err := pe.sectors.Write(newRoot, &updated); err != nil {
 		return nil, nil, fmt.Errorf("failed to write sector: %w", err)
 	}
 	if err := pe.updater.UpdateSector(newRoot, sectorIndex); err != nil {
